@@ -1,6 +1,6 @@
 From Coq Require Import Extraction ExtrOcamlBasic.
-From PP Require Import Sys.ExitDefs Sys.ThreadedIODefs Sys.WrapperIODefs.
+From PP Require Import Sys.ExitDefs Sys.ThreadedIODefs Sys.WrapperIODefs Sys.WrapperMainDefs.
 Extraction "model.ml" Z.of_N Z.to_N Z.of_nat Z.to_nat N.of_nat N.to_nat N.add N.mul Z.opp
-  tool_run ReadOrEOF ReadOrThrow script_run iostream_run threaded_file_run wrapper_io_run launch_status wrapper_status Wait wstatus any_failed accepted
+  tool_run ReadOrEOF ReadOrThrow script_run iostream_run threaded_file_run wrapper_io_run launch_status wrapper_main_run Wait wstatus any_failed accepted
   conf_process_unicode conf_mmhsum conf_gigaword_unwrap conf_order_independent_hash
   EINTR EIO EAGAIN EISDIR EINVAL EFBIG ENOSPC EROFS EPIPE ENOTSUP SIGABRT SIGPIPE kBufferSize.
